@@ -1,7 +1,7 @@
 #!/bin/bash
 # Build the whole Coq development from clean (full .vo build).
 set -e
-cd /verif/coq
+cd "$(dirname "${BASH_SOURCE[0]}")/coq"
 rm -f Makefile Makefile.conf .Makefile.d
 find . -name '*.vo' -o -name '*.vos' -o -name '*.vok' -o -name '*.glob' -o -name '.*.aux' | xargs -r rm -f
 coq_makefile -f _CoqProject -o Makefile > /dev/null
